@@ -83,34 +83,70 @@ def check(ctx, pcirc, order, link_order, assigns, replay, setp=None):
         ctx.disagreement("C12.model.components", f"model: {ans}", replay)
     elif {frozenset(s) for s in ans["sets"]} != set(got):
         ctx.disagreement("C12.model.components", f"model {ans['sets']} vs implementation {sorted(map(sorted, got))}", replay)
-    # behaviour of every sub-solver
-    for assign in assigns:
+    # behaviour of every sub-solver.  The order of the solves is varied (sub-solver first or original first,
+    # non-default assignments before the empty one): a sub-solver must neither depend on nor disturb the original.
+    import copy as _copy
+    defaults_before = _copy.deepcopy(sol.default_params)
+    order_rng = __import__("random").Random(len(pcirc["links"]) * 7919 + len(order))
+    seq = list(assigns)
+    order_rng.shuffle(seq)
+    seq = seq + [{}]                       # and once more at the defaults, after everything else
+    for assign in seq:
         kw = {k: float(v) for k, v in assign.items()}
+        sub_first = order_rng.random() < 0.5
+        parts = {}
+
+        def solve_subs():
+            for sub, members in zip(subs, got):
+                names = [p for c in sorted(members) for p in pcirc["comps"][c]["pins"]
+                         if not any((a == c and pp == p) or (b == c and qq == p) for (a, pp, b, qq) in pcirc["links"])]
+                try:
+                    parts[members] = (names, impl.solved_matrix(sub.solve(**kw), names))
+                except Exception as e:  # noqa
+                    parts[members] = (names, e)
+        full = None
         try:
+            if sub_first:
+                solve_subs()
             full = sol.solve(**kw)
+            if not sub_first:
+                solve_subs()
         except Exception as e:  # noqa
             if impl.outcome_class(e) == "singular":
                 continue
             ctx.violation(f"C12:orig-solve-{type(e).__name__}", "solving the original raised", replay)
             return False
-        for sub, members in zip(subs, got):
-            names = [p for c in sorted(members) for p in pcirc["comps"][c]["pins"]
-                     if not any((a == c and pp == p) or (b == c and qq == p) for (a, pp, b, qq) in pcirc["links"])]
-            try:
-                part = sub.solve(**kw)
-                Ts = impl.solved_matrix(part, names)
-            except Exception as e:  # noqa
-                if impl.outcome_class(e) == "singular":
+        # independent reference at these values (solver defaults: set_param values, else the blocks' own)
+        vals = {}
+        for comp in pcirc["comps"]:
+            nm = comp["param"]
+            vals[nm] = assign.get(nm, (setp or {}).get(nm, comp["default"]))
+        conc = c04.at_point(dict(pcirc, exposed=[]), vals)
+        for members, (names, Ts) in parts.items():
+            if isinstance(Ts, Exception):
+                if impl.outcome_class(Ts) == "singular":
                     continue
-                sig = "C12:defaults" if not set(kw) >= {c["param"] for c in pcirc["comps"]} else "C12:sub-solve-raised"
-                ctx.violation(sig, f"sub-solver {sorted(members)} raised {type(e).__name__} for parameters {sorted(kw)}: {str(e)[:60]}", replay)
+                ctx.violation("C12:sub-solve-raised", f"sub-solver {sorted(members)} raised {type(Ts).__name__} for parameters {sorted(kw)}: {str(Ts)[:60]}", replay)
                 return False
             To = impl.solved_matrix(full, names)
             d = float(np.max(np.abs(Ts - To))) if To.size else 0.0
             if d > 1e-9:
-                sig = "C12:defaults" if not set(kw) >= {c["param"] for c in pcirc["comps"] if pcirc["comps"].index(c) in members} else "C12:sub-differs"
-                ctx.violation(sig, f"sub-solver {sorted(members)} differs from the original on its own pins by {d:.3e} for parameters {sorted(kw)}", replay)
+                # who is wrong?  compare both with the independent reference of that component
+                sub_c = {"comps": conc["comps"], "links": conc["links"],
+                         "exposed": [(nm, c, nm) for c in sorted(members) for nm in pcirc["comps"][c]["pins"] if nm in names]}
+                Tref, cond, _, _ = gen.reference_solve(sub_c)
+                idx = [[e[0] for e in sub_c["exposed"]].index(nm) for nm in names]
+                Tref = Tref[np.ix_(idx, idx)]
+                eo = float(np.max(np.abs(To[0] - Tref))) if To.size else 0.0
+                es = float(np.max(np.abs(Ts[0] - Tref))) if To.size else 0.0
+                who = "the ORIGINAL solver is off (its state was disturbed)" if eo > es else "the sub-solver is off"
+                sig = "C12:original-disturbed" if eo > es else ("C12:defaults" if not kw else "C12:sub-differs")
+                ctx.violation(sig, f"sub-solver {sorted(members)} and the original differ on its pins by {d:.3e} for parameters {sorted(kw)}; "
+                              f"against an independent reference {who} (orig {eo:.2e}, sub {es:.2e})", replay)
                 return False
+    if sol.default_params != defaults_before:
+        ctx.violation("C12:original-disturbed", f"solving the split solvers changed the original's default_params: {defaults_before} -> {sol.default_params}", replay)
+        return False
     return True
 
 
